@@ -165,7 +165,7 @@ class C16(Check):
     ]
     trusted_base = ['jsonschema 3.2 + the meta-schemas in tests/server/resources', 'python json']
     required_classes = ['kind/openapi-3.1.0', 'kind/openapi-3.0.3', 'kind/openrpc', 'extractors/base', 'extractors/pydantic', 'extractors/docstring',
-                        'extractors/pydantic+docstring', 'extractors/docstring+pydantic', 'shared-errors-list', 'generations>=2', 'methods>=2',
+                        'extractors/pydantic+docstring', 'extractors/docstring+pydantic', 'shared-errors-list', 'generations>=2', 'methods>=2', 'late-error-class-named-in-docstring',
                         'annot/prefix', 'annot/examples', 'annot/errors', 'flavour/view', 'endpoints/2', 'doc/full', 'doc/bare-types', 'opts/status-map', 'alias']
 
     # ---- generation -------------------------------------------------------------------------------------------
@@ -195,6 +195,7 @@ class C16(Check):
             'spec_opts': st.fixed_dictionaries({'servers': s_bool, 'tags': s_bool, 'security': s_bool, 'external_docs': s_bool,
                                                 'status_map': st.sampled_from([None, None, {'2001': 404, '-32601': 404}, {'2002': 409, '-32602': 422, '2001': 404}])}),
             'path': st.sampled_from(['/api', '/', '/api/v1', '/api', '/', '/api/v1', '/rpc/', '']),
+            'late_error': st.integers(0, 3).map(lambda n: n == 0),
         })
 
     def corpus(self):
@@ -213,6 +214,9 @@ class C16(Check):
                                 m(doc='none', annot={**annot, 'errors': 'own', 'error_names': ['Custom2002'], 'prefix': 'Pfx2'}),
                                 m(doc='none', annot={**annot, 'errors': 'none'}, alias=True)]})
         # explicit result schemas / docstring extractor with DIFFERENT errors per method (error schemas are built from a shared template)
+        for kind, ex in (('openapi-3.1.0', ['docstring']), ('openrpc', ['docstring']), ('openapi-3.1.0', ['pydantic', 'docstring'])):
+            out.append({'kind': kind, 'extractors': ex, 'endpoints': 1, 'generations': 1, 'path': '/api', 'spec_opts': opts, 'late_error': True,
+                        'methods': [m(doc='raises', annotated=False), m(doc='full', annot={**annot, 'errors': 'none'})]})
         for ex in (['docstring'], ['base'], ['docstring', 'pydantic']):
             out.append({'kind': 'openapi-3.1.0', 'extractors': ex, 'endpoints': 1, 'generations': 2, 'path': '/api', 'spec_opts': opts,
                         'methods': [m(doc='none', annot={**annot, 'errors': 'own', 'error_names': ['Custom2001'], 'result_schema': True, 'params_schema': True}),
@@ -243,6 +247,8 @@ class C16(Check):
             lines.append(':raises Custom2002: when it goes wrong')
             lines.append(':raises InvalidParamsError: bad params')
             lines.append(':raises NotAnErrorName: ignored')
+            if ms.get('_late_error'):
+                lines.append(':raises LateError: an application error class defined after the specification object was created')
         if kind == 'deprecated':
             lines += ['.. deprecated:: 1.2', '   use something else']
         return '\n    '.join(lines)
@@ -397,8 +403,24 @@ class C16(Check):
         is_rpc = spec['kind'] == 'openrpc'
         if is_rpc:
             spec = {**spec, 'endpoints': 1, 'extractors': spec['extractors'][:1]}
+        late = bool(spec.get('late_error'))
+        if late:
+            spec = {**spec, 'methods': [{**m, '_late_error': True} for m in spec['methods']]}
         registries, built, user_objects = self._build_methods(spec)
         sp, sp_kwargs = self._make_spec(spec)
+        if late:
+            # the application's error classes come into being AFTER the specification object (app.py builds the spec, the method
+            # modules are imported later); the class is unregistered again at the end of the case
+            from pjrpc.common.exceptions import JsonRpcErrorMeta
+            type('LateError', (pjrpc.exceptions.JsonRpcError,), {'code': LATE_CODE, 'message': 'late'})
+        try:
+            return self._run_case(spec, registries, built, user_objects, sp, sp_kwargs, late)
+        finally:
+            if late:
+                JsonRpcErrorMeta.__errors_mapping__.pop(LATE_CODE, None)
+
+    def _run_case(self, spec: Any, registries: Any, built: Any, user_objects: Any, sp: Any, sp_kwargs: Any, late: bool) -> Outcome:
+        is_rpc = spec['kind'] == 'openrpc'
         where = (f"kind={spec['kind']} extractors={spec['extractors']} endpoints={spec['endpoints']} generations={spec['generations']} path={spec['path']!r} "
                  f"methods={jg.short([{k: v for k, v in m.items() if k != 'annot'} | {'annot': {k: v for k, v in m['annot'].items() if v} if m['annotated'] else None} for m in spec['methods']], 700)}")
         discs: List[Disc] = []
@@ -460,6 +482,18 @@ class C16(Check):
                     if not same:
                         discs.append(Disc("C16/purity/generation-differs", f"generation {g} differs from the first | {where}"))
                         break
+        # (5b) purity: an identically configured specification object created NOW (after everything the application defines exists)
+        # describes the same registry with the same document
+        if docs_ and late:
+            try:
+                sp_now, _ = self._make_spec(spec)
+                now = json.loads(json.dumps(self._generate(spec, sp_now, registries), cls=specs.JSONEncoder))
+                n_eval += 1
+                if now != json.loads(json.dumps(docs_[0], cls=specs.JSONEncoder)):
+                    discs.append(Disc("C16/purity/depends-on-when-the-generator-was-created",
+                                      f"a generator created before an error class was defined documents the registry differently from one created after | {where}"))
+            except Exception as e:
+                discs.append(Disc(f"C16/generation-failed/{type(e).__name__}", f"{e!r} (generator created late) | {where}"))
         after = snapshot([[b['fn'].__dict__.get('__pjrpc_meta__') for b in built], user_objects, vars(sp), sp_kwargs])
         if before != after:
             which = 'annotations-or-user-objects-modified'
@@ -493,6 +527,8 @@ class C16(Check):
             classes.append('methods>=2')
         if spec['generations'] >= 2:
             classes.append('generations>=2')
+        if late and 'docstring' in spec['extractors'] and any(m['doc'] in ('full', 'raises') for m in spec['methods']):
+            classes.append('late-error-class-named-in-docstring')
         if spec['spec_opts'].get('status_map') and not is_rpc:
             classes.append('opts/status-map')
         annotated = [m for m in spec['methods'] if m['annotated']]
@@ -536,6 +572,8 @@ def openrpc_docstring(spec: Any, disc: Disc) -> bool:
 
 
 C16.matchers = {'openapi30': openapi30, 'openrpc_docstring': openrpc_docstring, 'empty_path': empty_path}
+
+LATE_CODE = 2950
 
 CHECK = C16()
 
